@@ -37,17 +37,29 @@ pub fn header(cart_type: u8, rom_code: u8, ram_code: u8) -> Header {
 
 pub fn rom_bank_count(rom_code: u8) -> usize { header(0, rom_code, 0).get_rom_bank_count() }
 
-/// file of the declared size filled with `rom_byte`; `patch` overrides bytes (offset, value)
+/// file of the declared size filled with `rom_byte`; `patch` overrides bytes (offset, value).
+/// Unpatched pattern files are cached per size under .work/roms (created atomically); patched ones are
+/// unlinked as soon as they are opened.
 pub fn rom_file_with(name: &str, size: usize, patch: &[(usize, u8)]) -> File {
   let dir = format!("{}/roms", work_dir());
   fs::create_dir_all(&dir).unwrap();
-  let path = format!("{}/{}_{}.bin", dir, name, std::process::id());
+  let cached = format!("{}/pat_{}.bin", dir, size);
+  if patch.is_empty() {
+    if let Ok(f) = OpenOptions::new().read(true).open(&cached) {
+      if f.metadata().map(|m| m.len() as usize == size).unwrap_or(false) { return f; }
+    }
+  }
+  let path = format!("{}/{}_{}_{}.tmp", dir, name, size, std::process::id());
   let mut data = Vec::with_capacity(size);
   for i in 0..size { data.push(rom_byte(i)); }
   for (o, v) in patch { if *o < size { data[*o] = *v; } }
   let mut f = File::create(&path).unwrap();
   f.write_all(&data).unwrap();
   drop(f);
+  if patch.is_empty() {
+    let _ = fs::rename(&path, &cached);
+    return OpenOptions::new().read(true).open(&cached).unwrap();
+  }
   let f = OpenOptions::new().read(true).open(&path).unwrap();
   let _ = fs::remove_file(&path); // mapping keeps the inode alive; nothing is left on disk
   f
